@@ -91,4 +91,9 @@ TEXT = {
   "level_text": "The same generated request is sent to a backend directly and through a peer running the proxy plugin; caller-visible status triple, body bytes, reply codec and reply metadata and the backend's view (method, body, codec, metadata, exactly-once, real-IP injection iff absent) must agree; backend failures before and during forwarding must yield 502 on that call only, with the next proxied call (same and another proxy session) equal to the direct result.",
   "level_note": "Backend statuses avoid the framework-reserved range 100-199.",
  },
+ "C14": {
+  "technique": "property-based generation of concurrent programs with the Go race detector as the monitor (rapid + -race)",
+  "level_text": "Generated concurrent programs (2-10 goroutines x 1-12 documented-safe operations on 1-2 shared sessions: Call, AsyncCall, Push in both directions, handler replies, SetID, swap store/load/range, age getters, Health, CloseNotify, GetSession, RangeSession, CountSession, Close) run in a binary built with -race, once with logging off and once with run-logging at INFO; the driver parses every detector report and reports a violation for each unordered pair of framework functions not listed as a known finding.",
+  "level_note": "Only executed interleavings are observed. The harness itself must be race-free: reports touching harness frames or non-concurrency-safe global setters are infrastructure errors, not findings.",
+ },
 }
